@@ -162,10 +162,11 @@ func (w *oracleWorkload) Next(block int) []rig.Tx {
 		// the poor creator keeps only a little of the fee denom
 		keep := int64(40)
 		bal := r.App.BankKeeper.GetBalance(r.Ctx(), w.poor.Addr, rig.BondDenom)
-		return []rig.Tx{
-			r.Mk(r.Acc(0), &orTag{Kind: "setup"}, svcDefine(r.Acc(0), orSvc, svcGenericSchemas)),
-			r.Mk(w.poor, &orTag{Kind: "setup"}, banktypes.NewMsgSend(w.poor.Addr, r.Acc(3).Addr, sdk.NewCoins(sdk.NewCoin(rig.BondDenom, bal.Amount.SubRaw(keep))))),
+		txs := []rig.Tx{r.Mk(r.Acc(0), &orTag{Kind: "setup"}, svcDefine(r.Acc(0), orSvc, svcGenericSchemas))}
+		if !w.quiet {
+			txs = append(txs, r.Mk(w.poor, &orTag{Kind: "setup"}, banktypes.NewMsgSend(w.poor.Addr, r.Acc(3).Addr, sdk.NewCoins(sdk.NewCoin(rig.BondDenom, bal.Amount.SubRaw(keep))))))
 		}
+		return txs
 	case 1:
 		w.setup++
 		return []rig.Tx{
@@ -196,8 +197,17 @@ func (w *oracleWorkload) Next(block int) []rig.Tx {
 			if i == 1 {
 				name = "feed0x" // one name that extends another (prefix-iteration hazard)
 			}
+			if w.quiet && i == 0 {
+				name = "tka-stake" // the exchange-rate feed other modules read (service pricing in tka)
+			}
+			if name == "tka-stake" {
+				freq, timeout = 3, 2
+			}
 			msg := &oracletypes.MsgCreateFeed{FeedName: name, LatestHistory: uint64(1 + rng.Intn(5)), Description: "d", Creator: creator.Addr.String(), ServiceName: orSvc, Providers: provs,
 				Input: `{"header":{},"body":{}}`, Timeout: timeout, ServiceFeeCap: sdk.NewCoins(sdk.NewInt64Coin(rig.BondDenom, 10)), RepeatedFrequency: freq, AggregateFunc: pick(rng, "max", "min", "avg"), ValueJsonPath: "last", ResponseThreshold: uint32(1 + rng.Intn(np))}
+			if name == "tka-stake" {
+				msg.ResponseThreshold = 1
+			}
 			out = append(out, r.Mk(creator, &orTag{Kind: "create", Feed: name}, msg))
 		}
 		return out
@@ -223,6 +233,9 @@ func (w *oracleWorkload) Next(block int) []rig.Tx {
 				out = append(out, r.Mk(other, &orTag{Kind: "respond-foreign", Req: id, Feed: w.reqFeed[id], Val: lit}, svcRespond(other, id, `{"last":`+lit+`}`)))
 			default:
 				lit, cls := w.number()
+				if w.reqFeed[id] == "tka-stake" {
+					lit, cls = fmt.Sprintf("%d.%02d", 1+rng.Intn(5), rng.Intn(100)), "rate"
+				}
 				out = append(out, r.Mk(p, &orTag{Kind: "respond", Req: id, Feed: w.reqFeed[id], Val: lit, Role: cls}, svcRespond(p, id, `{"last":`+lit+`}`)))
 				if rng.Intn(8) == 0 { // duplicate answer
 					lit2, _ := w.number()
